@@ -5,7 +5,7 @@ usage: python -m vlib.replay_worker <harness module> <fn> <post expr> <raises cs
 Evaluates `fn(*args, **kwargs)` concretely and then the postcondition.
 Prints one JSON line: {"violates": bool, "how": str, "confirm": bool|null}
 """
-import sys, json, importlib, io, traceback
+import sys, os, json, importlib, io, traceback
 
 
 def _cap(*a, **k):
@@ -57,7 +57,7 @@ def main():
                 # the public-API leg blew up as well: the unit leg already reproduced on the real code, so this
                 # counts as confirmation when the failure comes out of clastic itself
                 tb = traceback.format_exc()
-                out["confirm"] = '/repo/clastic/' in tb
+                out["confirm"] = (os.environ.get('VERIF_TRIAGE_REPO', '/repo') + '/clastic/') in tb
                 out["confirm_error"] = repr(e)
     except BaseException as e:
         out["how"] = "replay worker error: %r" % (e,)
